@@ -407,7 +407,7 @@ def _abstract_dist():
             raise S.Unsupported('prob of an abstract distribution')
 
         def items(self):
-            return Opaque('items')
+            return Opaque('items', owner=self)
     return AbsD(), key, val, n
 
 
@@ -449,7 +449,8 @@ def h_expectation_U():
         S.assume(S.SymBool(ghost['kz'] < z3.ToInt(S.as_real(n).e)))
         state['phase'] = 'back'
         return (Atom(key(ghost['kz'])), S.SymReal(val(ghost['kz'])))
-    spec = CutSpec(inv=inv2, havoc=havoc, element=element, exhausted=lambda L: S.SymBool(ghost['kz'] == z3.ToInt(S.as_real(n).e)))
+    spec = CutSpec(inv=inv2, havoc=havoc, element=element, exhausted=lambda L: S.SymBool(ghost['kz'] == z3.ToInt(S.as_real(n).e)),
+                   iterable_ok=lambda L, v: getattr(v, 'owner', None) is d)
     fcut, text, info = cut(dd.FiniteDistribution.expectation, {0: spec}, dump_dir=os.path.join(ROOT, 'evidence', 'extracted'))
     res = fcut(d, lambda e: S.SymReal(f(e.e)))
     S.check('U:expectation:probability-weighted-sum-over-the-whole-support(any-length)', S.eq(res, S.SymReal(Ssum(z3.ToInt(S.as_real(n).e)))))
@@ -489,7 +490,7 @@ def h_marginalize_U():
         S.assume(S.SymBool(ghost['kz'] < nz))
         state['phase'] = 'back'
         return (Atom(key(ghost['kz'])), S.SymReal(val(ghost['kz'])))
-    spec = CutSpec(inv=inv, havoc=havoc, element=element, exhausted=lambda L: S.SymBool(ghost['kz'] == nz))
+    spec = CutSpec(inv=inv, havoc=havoc, element=element, exhausted=lambda L: S.SymBool(ghost['kz'] == nz), iterable_ok=lambda L, v: getattr(v, 'owner', None) is d)
     fcut, text, info = cut(dd.FiniteDistribution.marginalize, {0: spec}, dump_dir=os.path.join(ROOT, 'evidence', 'extracted'))
     with patched((dd, dict(DictDistribution=lambda m: m))):
         res = fcut(d, lambda e: Atom(proj(e.e)))
@@ -513,7 +514,7 @@ def h_mixture_U():
     class AbsD(dd.FiniteDistribution):
         support = property(lambda self: Opaque('support'))
         def prob(self, e): raise S.Unsupported('prob of an abstract distribution')
-        def items(self): return Opaque('items')
+        def items(self): return Opaque('items', owner=self)
     a, b = AbsD(), AbsD()
     J = fresh_atom('any_event')
     g = {0: {}, 1: {}}
@@ -540,7 +541,8 @@ def h_mixture_U():
             S.assume(S.SymBool(g[loop]['kz'] < n))
             phase[loop] = 'back'
             return (Atom(key(g[loop]['kz'])), S.SymReal(val(g[loop]['kz'])))
-        return CutSpec(inv=inv, havoc=havoc, element=element, exhausted=lambda L: S.SymBool(g[loop]['kz'] == n))
+        return CutSpec(inv=inv, havoc=havoc, element=element, exhausted=lambda L: S.SymBool(g[loop]['kz'] == n),
+                       iterable_ok=lambda L, v: getattr(v, 'owner', None) is (a, b)[loop])
     specs = {0: mk(0, keyA, valA, na, SA, lambda: 0), 1: mk(1, keyB, valB, nb, SB, lambda: S.SymReal(SA(na, J.e)))}
     fcut, text, info = cut(dd.FiniteDistribution.__or__, specs, dump_dir=os.path.join(ROOT, 'evidence', 'extracted'))
     with patched((dd, dict(DictDistribution=lambda m: m))):
